@@ -2,6 +2,7 @@ package swapsim
 
 import (
 	"fmt"
+	"runtime"
 	"strings"
 	"testing"
 	"time"
@@ -29,11 +30,25 @@ func countOpeningMsgs(n *sim.Node, id string) int {
 	return c
 }
 
+// liveRetransmitters counts the goroutines that currently run a RedundantMessenger retransmission loop.
+func liveRetransmitters() int {
+	buf := make([]byte, 8<<20)
+	n := runtime.Stack(buf, true)
+	c := 0
+	for _, g := range strings.Split(string(buf[:n]), "\n\n") {
+		// loops of a crashed process that are parked inside one of its (inert) fakes do not count
+		if strings.Contains(g, "messages.(*RedundantMessenger).SendMessage.func1") && !strings.Contains(g, "sim.(*Proc).point") {
+			c++
+		}
+	}
+	return c
+}
+
 func TestC22RetransmissionStops(t *testing.T) {
 	col := stats.Get("C22.hist")
 	rapid.Check(t, func(t *rapid.T) {
 		h := newHist(t, HistCfg{MaxSteps: 26, Chains: []string{"btc", "lbtc"}, Restarts: true, Timeouts: true, Drops: true, PayOutcomes: true,
-			Weights: map[string]int{"start": 0, "progress": 10, "deliver": 1, "settle": 0, "restart": 1, "mine": 2, "watcher": 1, "paid": 1, "timeout": 1, "payplan": 1, "resolve": 1, "tick": 6, "peer": 2}})
+			Weights: map[string]int{"start": 0, "progress": 10, "deliver": 1, "settle": 0, "restart": 1, "mine": 2, "watcher": 1, "paid": 1, "timeout": 1, "payplan": 1, "resolve": 1, "tick": 6, "peer": 2, "offline": 2}})
 		defer h.Close()
 		// reboot both nodes with the real messages.Manager and harness-owned tick channels
 		for _, n := range h.nodes() {
@@ -41,6 +56,28 @@ func TestC22RetransmissionStops(t *testing.T) {
 			n.Kill()
 			if err := n.Boot(); err != nil {
 				t.Fatalf("boot: %v", err)
+			}
+		}
+		baseline := liveRetransmitters()
+		// every live retransmission loop must belong to a swap that is waiting for the taker in a live process
+		checkLoops := func(where string) {
+			waiting := 0
+			for _, n := range h.nodes() {
+				if !h.alive(n) {
+					continue
+				}
+				for _, s := range n.Swaps() {
+					if waitingForTaker(string(s.Current)) {
+						waiting++
+					}
+				}
+			}
+			live := liveRetransmitters() - baseline
+			for dl := time.Now().Add(80 * time.Millisecond); live > waiting && time.Now().Before(dl); live = liveRetransmitters() - baseline {
+				time.Sleep(500 * time.Microsecond)
+			}
+			if live > waiting {
+				h.stop = col.Violation(h.T, "C22/retransmitter-outlives-waiting-state", "%s: %d retransmission loops are alive, %d swaps wait for the taker\n%s", where, live, waiting, h.dump())
 			}
 		}
 		afterChange := map[*sim.TickSender]int{} // ticks consumed after the swap left the waiting state
@@ -97,7 +134,26 @@ func TestC22RetransmissionStops(t *testing.T) {
 		delete(acts, "settle")
 		acts["tick"] = func() {
 			offerAll()
+			if !h.stop {
+				checkLoops("tick")
+			}
 			h.opf("tick")
+		}
+		// the taker may be unreachable when the maker announces the opening transaction
+		acts["offline"] = func() {
+			n := h.nodes()[rapid.IntRange(0, 1).Draw(t, "offNode")]
+			skip := rapid.IntRange(0, 3).Draw(t, "offSkip")
+			cnt := rapid.IntRange(1, 2).Draw(t, "offCount")
+			var q []sim.FaultKind
+			for i := 0; i < skip; i++ {
+				q = append(q, sim.FaultNone)
+			}
+			for i := 0; i < cnt; i++ {
+				q = append(q, sim.FaultBefore)
+			}
+			n.Faults["msg.Send"] = q
+			h.opf("offline(%s,skip=%d,n=%d)", n.Name, skip, cnt)
+			h.class("send-failure-planned")
 		}
 		acts["peer"] = func() {
 			for _, n := range h.nodes() {
@@ -134,6 +190,9 @@ func TestC22RetransmissionStops(t *testing.T) {
 			closureSilentPeer(h, 3)
 			for i := 0; i < 3 && !h.stop; i++ {
 				offerAll()
+			}
+			if !h.stop {
+				checkLoops("end")
 			}
 		}
 		nt := ticksWhileWaiting >= 1 && ticksAfter >= 2
